@@ -21,6 +21,9 @@ structure Frame where
 /-- message types the server's handler does not take: reply, error, event, cancelled -/
 def ignoredType (t : Nat) : Bool := t == 2 || t == 3 || t == 5 || t == 8
 
+/-- not a message type: `Header.Read` fails, the reading goroutine closes the connection -/
+def badType (t : Nat) : Bool := t == 0 || t > 8
+
 def capabilityMapSizeMax : Nat := 4096
 def authenticateAction : Nat := 8
 
@@ -85,6 +88,7 @@ inductive Ev where
   | actionNotFound
   | capError                     -- the capability map does not parse
   | authReply (state : Nat)      -- 3 = done, 1 = error
+  | badFrame                     -- not a valid header: the connection is closed
   | dead                         -- the connection is closed: nothing is read any more
   deriving Repr, DecidableEq
 
@@ -113,6 +117,7 @@ def setConn (cs : List Conn) (k : Nat) (f : Conn → Conn) : List Conn :=
 /-- what the connection goroutine does with a frame, given the connection's state -/
 def classify (cfg : Cfg) (c : Conn) (f : Frame) : Ev :=
   if c.closed then .dead
+  else if badType f.typ then .badFrame
   else if ignoredType f.typ then .ignored
   else if !c.auth && f.svc != 0 then .refusedClosed
   else if f.svc == 0 then (if f.obj == 0 then .queued else .objNotFound 0)
@@ -126,15 +131,19 @@ def Ev.reachedService : Ev → Bool
   | .svcNotFound => true
   | _ => false
 
+/-- the connection after the frame was handled with outcome `ev` -/
+def connAfter (c : Conn) (f : Frame) (ev : Ev) : Conn :=
+  if ev == .dead || ev == .ignored then c
+  else if ev == .badFrame then { c with closed := true }
+  else { c with received := c.received ++ [f], closed := ev == .refusedClosed }
+
 /-- the connection goroutine of connection `k` takes the next frame -/
 def recv (cfg : Cfg) (s : Srv) (k : Nat) (f : Frame) : Srv :=
   match s.conns[k]? with
   | none => s
   | some c =>
     let ev := classify cfg c f
-    let c1 : Conn :=
-      if ev == .dead || ev == .ignored then c
-      else { c with received := c.received ++ [f], closed := ev == .refusedClosed }
+    let c1 : Conn := connAfter c f ev
     { s with conns := s.conns.set k c1,
              box := if ev == .queued then s.box ++ [(k, f)] else s.box,
              trace := s.trace ++ [(k, ev)] }
